@@ -213,9 +213,9 @@ def run_case(spec, j):
                                              raised=type(ex).__name__,
                                              msg=str(ex)[:100]))
   # ---- clone behaves identically when fitted; pickle preserves outputs
-  for rep in range(2):
+  for rep in range(2 + 2 * (name == 'LFDA')):
     dss = {'seed': int(rng.randint(2**31 - 1)), 'd': int(rng.randint(2, 5)),
-           'classes': 2 + rep, 'variant': 'plain', 'nmax': 40}
+           'classes': 2 + rep % 2, 'variant': 'plain', 'nmax': 40}
     ds = common.dataset(dss)
     cfgs = [c for c in configs.light(name, ds['d'], ds['classes'])
             if not c.get('diagonal')]
